@@ -525,6 +525,53 @@ func c08EnumLevelTypes(size, shard, nshards int, emit func(c07Case)) {
 	}
 }
 
+// c08EnumFirstPL: the room has NO power-levels event yet (the levels in force are the defaults, the
+// creator at 100 before v12); somebody proposes the first one. Sender: creator / ordinary member /
+// member who is not joined. Content: every named threshold drawn from {omitted, -1, 0, 50, 100} along
+// a few diagonals, with a users map that lists nobody / the sender / the creator.
+func c08EnumFirstPL(size, shard, nshards int, emit func(c07Case)) {
+	idx := 0
+	named := []string{"ban", "kick", "redact", "invite", "state_default", "events_default", "users_default"}
+	for _, version := range vfVersions {
+		for _, sender := range []string{c07Creator, c07Bob, c07Carol} {
+			for _, lvl := range []int64{99, -1, 0, 50, 100} {
+				for _, except := range append([]string{""}, named...) {
+					for _, usersKind := range []string{"none", "sender-0", "sender-100", "creator-100", "creator-0"} {
+						idx++
+						if idx%nshards != shard || !c07Pick(idx, size) {
+							continue
+						}
+						r := c07Room{Version: version, HasPL: false, JoinRule: "public", Members: map[string]string{c07Creator: "join", c07Bob: "join", c07Carol: "leave"}}
+						nc := jv{K: 'o'}
+						for _, n := range named {
+							// `except` stays at its default by being left out
+							if lvl != 99 && n != except {
+								nc = nc.with(n, jnum(lvl))
+							}
+						}
+						switch usersKind {
+						case "sender-0":
+							nc = nc.with("users", jobj(sender, jnum(0)))
+						case "sender-100":
+							nc = nc.with("users", jobj(sender, jnum(100)))
+						case "creator-100":
+							nc = nc.with("users", jobj(c07Creator, jnum(100)))
+						case "creator-0":
+							nc = nc.with("users", jobj(c07Creator, jnum(0)))
+						}
+						b := c07Build(r)
+						e := raEv{Type: "m.room.power_levels", Sender: sender, StateKey: raSK(""), Content: nc, Prev: []string{"$p:a.example"}}
+						if vtraits[version].Format == 2 {
+							e.Prev = []string{"$" + strings.Repeat("P", 43)}
+						}
+						emit(c07Finish(version, b, e))
+					}
+				}
+			}
+		}
+	}
+}
+
 func c08EnumEdits(size, shard, nshards int, emit func(c07Case)) {
 	idx := 0
 	type entryOp struct {
@@ -647,6 +694,8 @@ func init() {
 	rule := "bounded-exhaustive product: 16 versions x sender level {50,100} x {users, events, notifications, named levels} x (existing entry at L-1/L/L+1/absent -> absent/L-1/L/L+1) x another entry added (none/L-1/L/L+1) x a third entry removed (none/L-1/L/L+1) x own entry kept/removed/lowered/raised; size = sampling stride (1 = complete); non-trivial as for C08/pairs"
 	vfEnum("C08/level-types", rule+" Here: one level of an otherwise unchanged, permitted power-levels event (each named level, a users / events / notifications entry) is replaced by each non-integer spelling (null, numeric string, padded string, float with zero fraction, exponent, fraction, boolean, array, object, huge integer), in every room version.", 1, 1, 4, c08EnumLevelTypes, c08Check)
 	vfEnum("C07/power-level-types", rule+" (the same cases judged against R-auth in both directions)", 1, 1, 4, c08EnumLevelTypes, c07Check)
+	vfEnum("C08/first-power-levels", rule+" Here: a room without a power-levels event; creator / member / non-member proposes the first one: 5 values for all named thresholds (one of them optionally left at its default) x 5 users maps x 16 versions.", 2, 1, 4, c08EnumFirstPL, c08Check)
+	vfEnum("C07/first-power-levels", rule+" (the same cases judged against R-auth in both directions)", 2, 1, 4, c08EnumFirstPL, c07Check)
 	vfEnum("C08/edit-product", rule, 6, 1, 8, c08EnumEdits, c08Check)
 	vfEnum("C07/power-level-edit-product", rule+" (judged against R-auth in both directions)", 6, 1, 8, c08EnumEdits, c07Check)
 }
